@@ -5,6 +5,7 @@ import io
 import pyModeS as pms
 from pyModeS.decoder import uplink as U
 from ref import frames
+from vlib import variants
 from vlib.core import Leg, call
 
 A = pms.adsb
@@ -186,6 +187,18 @@ def chk_cell(c, note):
             p = expect(name, r, exp, shape, msg, extra)
             if p:
                 return p
+        if not extras[0] and "+" not in name and (c["low48"] ^ len(name)) & 3 == 0:
+            # other access paths to the same call: the documented keyword `msg=`, and the frame held in a str subclass
+            f = getattr(A, name)
+            r = call(f, msg)
+            rk = call(f, msg=msg)
+            if not variants.same_outcome(r, rk):
+                return "%s(msg=%s) -> %r, positional -> %r" % (name, msg, rk, r)
+            for tname, m2 in variants.str_variants(msg):
+                r2 = call(f, m2)
+                if not variants.same_outcome(r, r2):
+                    return "%s on a %s holding %s -> %r, on the plain str -> %r" % (name, tname, msg, r2, r)
+            n += 3
         outside += exp == "rt"
     # (d) routing by type code alone
     if etc is not None:
